@@ -192,6 +192,27 @@ example : cleanRequest wCleanBad = true ∧ codeAccepts wCleanBad = false ∧
   refine ⟨?_, ?_, ?_⟩ <;> decide
 example : cleanRequest wWsColon = false := by decide
 
+/-! ### segmentation independence (all inputs) -/
+
+/-- **segmentation independence**: `parseOneS segs` reads one request — request line, header block with
+    continuation handling and look-ahead, framing decision, Content-Length or chunked body, trailer — from a
+    connection whose reads return the pieces `segs` one after the other (cut after a header line, inside a line,
+    between CR and LF, inside a chunk-size line / chunk data / the trailer, byte by byte, with empty pieces: any
+    list).  The request, the body bytes and the unread rest are exactly those of the whole-stream reader on the
+    concatenation, so the parse cannot depend on how the client's bytes are segmented. -/
+theorem C24_segmentation_independent (segs : List Bytes) : parseOneS segs = parseOne segs.flatten :=
+  parseOneS_eq segs
+
+/-- the header part alone, started in any reader state (bytes already buffered + pieces to come) -/
+theorem C24_segmentation_independent_head (x : RS) :
+    (readRequestHeadS x).map (fun p => (p.1, norm p.2)) = readRequestHead (norm x) :=
+  readRequestHeadS_norm x
+
+-- a request cut exactly after a header line, between CR and LF, inside a name, with an empty piece, inside the body
+def wSegs : List Bytes := [[80,79,83,84,32,47,97,32,72,84,84,80,47,49,46,49,13,10], [72,111,115,116,58,32,120,13], [10,67,111,110,116,101,110,116,45,76,101], [], [110,103,116,104,58,32,53,13,10], [13,10], [104,101,108], [108,111,71,69,84]]
+example : (parseOneS wSegs).map (fun p => (p.1.framing, p.2.1, p.2.2)) =
+    some (.length 5, [104, 101, 108, 108, 111], some [71, 69, 84]) := by decide
+
 /-! ### the full statement fails: one witness per smuggling class (model of the code accepts, RFC parser rejects) -/
 
 theorem C24_witness_ws_before_colon :
